@@ -284,7 +284,9 @@ def make_value(spec, ent, ws, loc, attr):
     if k == "wsname":
         return ws.name
     if k in ("str", "float", "int", "list", "dict"):
-        return spec["v"]
+        from copy import deepcopy
+
+        return deepcopy(spec["v"])  # geoh5py keeps (and later mutates) the caller's dictionary
     if k == "pick":
         cc = canon(cur)
         ch = [c for c in spec["choices"] if canon(c) != cc and "enum:" + str(c) != cc]
@@ -538,6 +540,37 @@ def drive(case, work):
     finally:
         if os.path.exists(path):
             os.remove(path)
+    # second pass without looking: the same assignments, but the writer never reads its own attributes back before
+    # closing (a getter may itself persist, e.g. Curve.cells recomputed from parts) - a later reader must see the same
+    blind = []
+    if not any(st["raised"] or "skipped" in st for st in obs["steps"]) and "reopen_failed" not in obs:
+        try:
+            if os.path.exists(path):
+                os.remove(path)
+            with Workspace.create(path) as ws:
+                loc2 = create(ws, case)
+            with Workspace(path) as ws:
+                ent = find(ws, loc2)
+                for st in case["steps"]:
+                    val = make_value(st["val"], ent, ws, loc2, st["attr"])
+                    if st["attr"] == "__setitem__":
+                        ent[val[0]] = val[1]
+                    else:
+                        setattr(ent, st["attr"], val)
+            with Workspace(path, mode="r") as ws:
+                s3 = snapshot(find(ws, loc2), snap)
+            fresh = ("uuid:", "entity:", "type:")
+            for a in snap:
+                txt = repr(s2[a]) + repr(s3[a])
+                if s3[a] != s2[a] and not any(t in txt for t in fresh) and "Date" not in txt:
+                    blind.append(a)
+                    obs.setdefault("blind_detail", {})[a] = {"reread_after_looking": s2[a], "reread_without_looking": s3[a]}
+        except Exception as e:  # noqa: BLE001
+            obs["blind_error"] = f"{type(e).__name__}: {e}"[:200]
+        finally:
+            if os.path.exists(path):
+                os.remove(path)
+    obs["lost_blind"] = blind
     for st in obs["steps"]:
         a = st["attr"]
         st["changed"] = s0.get(a) != s1.get(a)
@@ -546,7 +579,7 @@ def drive(case, work):
     # an attribute that a fresh reader does not return although the raw file holds the live value was *stored*:
     # the loss is on the reading side (reported under its own key), not a write-through loss
     obs["unread"] = [a for a in differ if a in raw and raw_matches(s1[a], raw[a]) is True]
-    obs["lost"] = [a for a in differ if a not in obs["unread"]]
+    obs["lost"] = [a for a in differ if a not in obs["unread"]] + [a for a in blind if a not in differ]
     for a, rv in raw.items():
         if a in s1 and a != "__error__":
             m = raw_matches(s1[a], rv)
